@@ -294,6 +294,74 @@ def _resolve_ites(c, t, assume, rounds=3):
     return t
 
 
+def _ratfun(t, memo, dens):
+    """z3 real term -> (num, den) z3 terms built by the school rules for fractions; t == num/den wherever every divisor
+    collected in ``dens`` is non-zero.  Anything that is not + - * / unary-minus is an atom."""
+    k = t.get_id()
+    if k in memo:
+        return memo[k][1]
+    K = t.decl().kind() if z3.is_app(t) else None
+    one = z3.RealVal(1)
+    mul = lambda a, b: b if a.eq(one) else (a if b.eq(one) else a * b)  # noqa: E731
+    if K in (z3.Z3_OP_ADD, z3.Z3_OP_SUB):
+        parts = [_ratfun(a, memo, dens) for a in t.children()]
+        n, d = parts[0]
+        for n2, d2 in parts[1:]:
+            if d.eq(d2):
+                n = n + n2 if K == z3.Z3_OP_ADD else n - n2
+            else:
+                n = (mul(n, d2) + mul(n2, d)) if K == z3.Z3_OP_ADD else (mul(n, d2) - mul(n2, d))
+                d = mul(d, d2)
+        r = (n, d)
+    elif K == z3.Z3_OP_MUL:
+        n, d = one, one
+        for a in t.children():
+            n2, d2 = _ratfun(a, memo, dens)
+            n, d = mul(n, n2), mul(d, d2)
+        r = (n, d)
+    elif K == z3.Z3_OP_UMINUS:
+        n, d = _ratfun(t.arg(0), memo, dens)
+        r = (-n, d)
+    elif K == z3.Z3_OP_DIV:
+        n1, d1 = _ratfun(t.arg(0), memo, dens)
+        n2, d2 = _ratfun(t.arg(1), memo, dens)
+        if not any(n2.eq(x) for x in dens):
+            dens.append(n2)
+        if not d2.eq(one) and not any(d2.eq(x) for x in dens):
+            dens.append(d2)
+        r = (mul(n1, d2), mul(d1, n2))
+    else:
+        r = (t, one)
+    memo[k] = (t, r)  # keep t alive (ast ids are reused after garbage collection)
+    return r
+
+
+def _rational_identity(c, l, r, assume):
+    """the claim  l == r  with denominators cleared: z3 5.1 needs ~30 s for the nested-fraction form of these identities and
+    ~0.1 s for the cleared one (z3 4.8.12: ~2 s / 0.1 s).  (1) If-conditions of l that the assumptions decide are resolved
+    (each by a solver query); (2) l - r is brought to num/den by _ratfun; (3) every divisor met on the way is proved
+    non-zero under the assumptions; then  l == r  <=>  num == 0.  If a divisor cannot be shown non-zero the plain claim is
+    returned.  The rewriting is spot-checked on a model of the assumptions."""
+    l = _resolve_ites(c, l, assume)
+    dens = []
+    n, d = _ratfun(l - r, {}, dens)
+    if len(_lemmas(c, [q != 0 for q in dens], assume)) != len(dens):
+        c.notes.append("denominator clearing not applicable (a divisor is not provably non-zero): plain identity asked")
+        return l == r
+    if not c.extra.get("ratfun_checked"):
+        s = z3.Solver()
+        s.set("timeout", 5000)
+        s.add(*[a for a in assume if not isinstance(a, bool)])
+        if s.check() == z3.sat:
+            m = s.model()
+            a = model_value(m, l - r)
+            b = model_value(m, n) / model_value(m, d)
+            if abs(a - b) > 1e-9 * (1 + abs(a)):
+                raise Inconclusive(f"denominator clearing failed its spot check: {a} vs {b}")
+            c.extra["ratfun_checked"] = True
+    return n == 0
+
+
 def _lemmas(c, candidates, assume, timeout_ms=5000):
     """optional proof hints: every candidate that z3 proves under ``assume`` (short timeout) is returned and may then be
     used as an additional assumption of a harder query with the same assumptions (sound: it is implied by them)."""
@@ -404,8 +472,8 @@ def _pole_case(c, case):
             # proof hints (each proved first, then assumed): the guards inside susceptibility_from_coefficients are decided by the
             # coefficient terms -- 1 - c2 != 0 and the pole mask -- which collapses its where-chains for the nonlinear solver
             for part, l, r in (("re", lhs.re, sc.cx(N).re), ("im", lhs.im, sc.cx(N).im)):
-                l = _resolve_ites(c, sc.toz(l), pc + [nz])
-                _prove_boxed(c, f"path{pi}: chi_rec[{j}]*D == N ({part})", l == sc.toz(r), pc + [nz], box, replay, key + ":susceptibility")
+                claim = _rational_identity(c, sc.toz(l), sc.toz(r), pc + [nz])
+                _prove_boxed(c, f"path{pi}: chi_rec[{j}]*D == N ({part})", claim, pc + [nz], box, replay, key + ":susceptibility")
         # (ii) roots of z^2 - c1 z - c2
         x, y = z3.Real("root_re"), z3.Real("root_im")
         seen = []
